@@ -258,6 +258,19 @@ func runConfSubProvenance(c *Ctx, ruleID string) {
 					}
 				}
 			}
+			// … looked up under the key as it is written, not under a re-rendering of the decoded id
+			if okSub {
+				ex := recv.(*ssa.Extract)
+				subCall := ex.Tuple.(*ssa.Call)
+				key := strip(subCall.Call.Args[1])
+				rendered := false
+				if kc, ok := key.(*ssa.Call); ok {
+					if f := calleeOf(kc); f != nil && f.Name() == "String" && recvNamed(f) != nil && recvNamed(f).Obj().Name() == "ID" {
+						rendered = true
+					}
+				}
+				c.Check(!rendered, "component configuration in "+fnName(fn)+" is looked up under the written key", p.Pos(subCall.Pos()), "key comes from the Conf's own keys", "the settings are looked up under id.String(), the normalised rendering of the decoded id: a key that is written differently (e.g. \"debug/ a\", which decodes to debug/a) is accepted, but everything written under it is silently dropped – unknown keys are not rejected and written settings are not reflected")
+			}
 			c.Check(okSub, "component configuration in "+fnName(fn)+" is decoded from conf.Sub(id)", p.Pos(ci.Pos()), "receiver is conf.Sub(…) of the function's Conf", "the component configuration is decoded from a Conf that is not a Sub of the loaded one (e.g. rebuilt from the decoded raw map): the original text of provider-supplied values is lost, so `${env:X}` holding 0123, true or 0xCAFE no longer fits a string or opaque field – decoding fails and prints the value, or stores something else than was written")
 		}
 	}
